@@ -40,6 +40,17 @@ def _p0(seed, k, eps, zmask, integer=False):
     return p
 
 
+def _one_sided_respected(p0, eps, pts_seen):
+    """the statement: at parameters that are zero or tiny (0 <= p, p*eps < 1e-6) one-sided stencils are used -- observable as:
+    the function is never evaluated below such a parameter's value (e.g. at a negative population size)"""
+    for j, pj in enumerate(p0):
+        if pj >= 0 and pj * eps < 1e-6:
+            for q in pts_seen:
+                if q[j] < pj - 1e-300:
+                    return 'two-sided stencil at a zero / tiny parameter: evaluated coordinate %d at %r below its value %r' % (j, float(q[j]), pj)
+    return None
+
+
 def _contain(p0, container):
     if container in ('intlist', 'intarray'):
         ip = [int(v) for v in p0]
@@ -68,9 +79,16 @@ def stencil_hess(seed, k, eps, zmask, container='list'):
     from dadi import Godambe
     A, b, c = _quad(seed, k)
     p0 = _p0(seed, k, eps, zmask, container.startswith('int'))
-    f = lambda p: float(0.5 * np.dot(p, np.dot(A, p)) + np.dot(b, p) + c)
+    pts_seen = []
+
+    def f(p):
+        pts_seen.append(np.array(p, dtype=float))
+        return float(0.5 * np.dot(p, np.dot(A, p)) + np.dot(b, p) + c)
     arg = _contain(p0, container)
     H = Godambe.get_hess(f, arg, eps)
+    side = _one_sided_respected(p0, eps, pts_seen)
+    if side:
+        return {'ok': False, 'what': 'get_hess: ' + side, 'k': k, 'eps': eps, 'p0': p0}
     h, one = _steps(p0, eps)
     # round-off: every f value carries ~eps_mach*|f|; second differences divide by h_i*h_j
     span = np.abs(np.array(p0)) + 2 * np.abs(h)
@@ -93,7 +111,11 @@ def stencil_grad(seed, k, eps, zmask, container='list', two_pt=False):
     for j in range(k):
         if one[j]:
             A[j, j] = 0.0          # linear along one-sided coordinates (cross terms stay: they are linear in p_j)
-    f = lambda p: float(0.5 * np.dot(p, np.dot(A, p)) + np.dot(b, p) + c)
+    pts_seen = []
+
+    def f(p):
+        pts_seen.append(np.array(p, dtype=float))
+        return float(0.5 * np.dot(p, np.dot(A, p)) + np.dot(b, p) + c)
     arg = _contain(p0, container)
     prev = Godambe.two_pt_deriv_test
     if two_pt:
@@ -103,6 +125,9 @@ def stencil_grad(seed, k, eps, zmask, container='list', two_pt=False):
         g = Godambe.get_grad(f, arg, eps)
     finally:
         Godambe.two_pt_deriv_test = prev
+    side = _one_sided_respected(p0, eps, pts_seen)
+    if side:
+        return {'ok': False, 'what': 'get_grad: ' + side, 'k': k, 'eps': eps, 'p0': p0}
     want = np.dot(A, p0) + b
     span = np.abs(np.array(p0)) + 2 * np.abs(h)
     fmax = 0.5 * np.dot(span, np.dot(np.abs(A), span)) + np.dot(np.abs(b), span) + abs(c)
